@@ -19,7 +19,7 @@ RULE = ("direct: tobytes() of every Command subclass over its parameter domain (
         "set-state over the C10 state generator, display toggle with both beep values) is parsed by a strict spec-conforming parser "
         "(0xAA, length byte == len-1, 0xAC, documented frame type, body ending in message id + CRC-8 (bitwise, table-free) and "
         "two's-complement checksum) and then by the reference device command parser; device-side: every public AirConditioner "
-        "operation against simulated devices with different capability profiles - the device must accept every frame; ids of "
+        "operation against simulated devices with different capability profiles, with and without DEBUG logging enabled, - the device must accept every frame; ids of "
         "consecutive distinct commands must advance by 1 mod 256 (checked over one long mixed sequence spanning several wrap-arounds). "
         "distinct = distinct frame bytes with the message id and check bytes blanked; all non-trivial")
 ASSUMPTIONS = ["documented frame types: queries and the display toggle 0x03, state/property writes 0x02",
@@ -113,7 +113,7 @@ def generate(ctx, rng):
         yield ("long", i), {"kind": "long", "n": 500, "lseed": rng.getrandbits(32)}
     # device-side: public operations with capability profiles
     for j in range(80 if quick else 1200):
-        yield ("ops", j), {"kind": "ops", "oseed": rng.getrandbits(32)}
+        yield ("ops", j), {"kind": "ops", "oseed": rng.getrandbits(32), "debug_logging": j % 2 == 1}
 
 
 def run_case(ctx, case):
@@ -256,7 +256,11 @@ def _ops(ctx, case):
             except Exception as e:  # noqa: BLE001
                 errs.append((op, e))
 
-    H.run_virtual(go, net)
+    if case.get("debug_logging"):
+        with H.debug_logging():
+            H.run_virtual(go, net)
+    else:
+        H.run_virtual(go, net)
     for op, e in errs:
         ctx.violation("operation-raises", f"{op} raised {type(e).__name__}: {e}", case)
     for frame, why in model.rejected:
